@@ -89,7 +89,7 @@ def _prune_cache(keep):
         if os.path.basename(e) == keep:
             continue
         kept += 1
-        if kept >= 2:  # keep at most the current tree and one other
+        if kept >= 6:  # keep the current tree and a few others (mutation runs use scratch trees)
             shutil.rmtree(e, ignore_errors=True)
 
 
